@@ -1,6 +1,7 @@
 #!/bin/sh
 # tools/roundseeds.sh <pattern> : like allseeds.sh for the seeds whose directory name matches the shell pattern (e.g. '*-r7-*')
 cd /verif
+export VERIF_EVIDENCE_DIR=/verif/.scratch/evidence_seeded   # evidence/ is for runs on the unchanged tree
 for d in seeded/$1/; do
   name=$(basename "$d"); prop=$(echo "$name" | cut -c1-3); [ -f "$d/check_with" ] && prop=$(cat "$d/check_with")
   [ -f "$d/patch.diff" ] || continue
